@@ -306,7 +306,10 @@ class Run:
             ts.status = "running"
             ts.pending_kind = None
             ts.pending_lock = None
-        lab = label_fn()
+        try:
+            lab = label_fn()
+        except Exception as e:  # noqa: BLE001  (restructured code: the action is still recorded, as unreadable)
+            lab = [f"<unreadable:{type(e).__name__}>"]
         if lab is not None:
             self.actions.append([ts.tid, kind, *lab])
 
@@ -456,8 +459,8 @@ def _label(namer: Namer, kind: str, frame) -> list:
         tp = loc["tp"]
         return [namer.describe_type(tp), namer.ref(cache[tp]) if tp in cache else None]
     if kind == "lc_put":
-        val = loc["loader_"] if "loader_" in loc else loc["dumper_"]
-        return [namer.describe_type(loc["tp"]), namer.ref(val)]
+        val = loc["loader_"] if "loader_" in loc else loc.get("dumper_", None)
+        return [namer.describe_type(loc["tp"]), namer.ref(val) if val is not None else "<unknown>"]
     if kind == "stub_new":
         return [namer.describe_loc(loc["last_loc"])]
     if kind == "stub_reuse":
